@@ -30,6 +30,15 @@ def console_steps(rng, gen: int, inst: dict, n: int, t0: float, spacing: float =
             if "sensor" in fields or "temp" in fields or "setpoint" in fields:
                 fields = dict(fields, sensor=full["sensor"], temp=full["temp"], setpoint=full["setpoint"])
             tl.append({"at": t, "op": "console.set", "entity": ["zone", rng.choice(zones)], "fields": fields, "only": rng.random() < 0.7})
+        elif k == "timer" and spacing >= 0.5 and rng.random() < 0.35:
+            # armed, cleared with the time left in place, armed again at the same time (what a user does when re-arming)
+            ac = rng.choice(acs)
+            which = rng.choice(["on", "off"])
+            tm = dict(G.timer(rng), disabled=False)
+            only = rng.random() < 0.5
+            tl.append({"at": t, "op": "console.set", "entity": ["timer", ac], "fields": {which: dict(tm)}, "only": only})
+            tl.append({"at": t + spacing / 8, "op": "console.set", "entity": ["timer", ac], "fields": {which: dict(tm, disabled=True)}, "only": only})
+            tl.append({"at": t + spacing / 4, "op": "console.set", "entity": ["timer", ac], "fields": {which: dict(tm)}, "only": only})
         elif k == "timer":
             tl.append({"at": t, "op": "console.set", "entity": ["timer", rng.choice(acs)], "fields": {rng.choice(["on", "off"]): G.timer(rng)}, "only": rng.random() < 0.5})
         elif k == "repeat":
